@@ -153,6 +153,15 @@ func runPathB(t *testing.T, path []int) (viols [][2]string, outcome string) {
 	}()
 	viol := func(sig, detail string) { viols = append(viols, [2]string{sig, detail}) }
 
+	defer func() {
+		if p := recover(); p != nil {
+			msg := fmt.Sprint(p)
+			if !strings.Contains(msg, "blocked goroutines remain") && !strings.Contains(msg, "deadlock") {
+				panic(p)
+			}
+			viols = append(viols, [2]string{"e2e/loop-wedged/bubble-cannot-end", "goroutines of the queue or its callers stay blocked for ever: " + msg})
+		}
+	}()
 	synctest.Test(t, func(t *testing.T) {
 		q = storage.NewNotificationQueue()
 		go q.Run()
